@@ -574,6 +574,23 @@ def r10_2(ctx):
     ctx.ob("yaml:collection-events", ok, site(cn), f"events classifying a document as a collection: {sorted(coll_events)}")
     ctx.ob("yaml:scalar-events", scalar_events == {"YAML_SCALAR_EVENT"}, site(cn), f"events classifying a document as a scalar: {sorted(scalar_events)}")
     first_wins = all((fn_of(t) or {}).get("name") != "insert" for _, t in cn.calls()) and any((fn_of(t) or {}).get("name") == "get_or_insert" for _, t in cn.calls())
+    # the kind slot (receiver of get_or_insert) is otherwise only reset to None / taken, never assigned Some(..)
+    slots = set()
+    for _, t in cn.calls():
+        if (fn_of(t) or {}).get("name") == "get_or_insert" and t["args"]:
+            tr = trace(cn, t["args"][0])
+            for st in tr.steps:
+                if st[0] == "field":
+                    slots.add((st[1], st[2]))
+                    break
+    for cb in common.chunker(ctx.facts)["bodies"]:
+        for bi, blk in enumerate(cb.blocks):
+            for s_ in blk["stmts"]:
+                if s_["k"] == "assign" and s_["p"]["pr"] and s_["p"]["pr"][-1]["k"] == "field" and (s_["p"]["pr"][-1]["name"], s_["p"]["pr"][-1].get("adt")) in slots:
+                    rv = s_["rv"]
+                    is_none = (rv["k"] == "aggregate" and rv.get("variant") == "None") or (rv["k"] == "use" and is_place(rv["op"]) and (lambda o: bool(o.origin and o.origin[0] == "agg" and o.origin[1]["rv"].get("variant") == "None"))(trace(cb, rv["op"])))
+                    if not is_none:
+                        first_wins = False
     ctx.ob("yaml:first-node-decides", first_wins, site(cn), "the first node event fixes the document kind (get_or_insert)" if first_wins else "a later node can overwrite the document kind")
     # the YAML trial answers with is_collection of the first chunk
     yt = trials["yaml"]
